@@ -1,6 +1,7 @@
 import Pi2.MachineThm
 import Pi2.Gen.Opcodes
 import Pi2.RustTie
+import Pi2.RustExecTie
 /-!
 # C05 — the checker implements the documented machine
 
@@ -128,5 +129,19 @@ theorem rust_judgements_tied :
     (∀ p e, Gen.Rust.e_fresh p e = Pat.eFresh e p) ∧ (∀ p s, Gen.Rust.s_fresh p s = Pat.sFresh s p) ∧
     (∀ p s, Gen.Rust.positive p s = Pat.pos s p) ∧ (∀ p s, Gen.Rust.negative p s = Pat.ng s p) :=
   ⟨RustTie.translated, RustTie.e_fresh_eq, RustTie.s_fresh_eq, RustTie.positive_eq, RustTie.negative_eq⟩
+
+
+/-- **conformance of the code as written**: `execute_instructions` of `rust/src/lib.rs` (translated statement by statement
+on every run, `Pi2/Gen/RustExec.lean`) run on a byte string from a machine-reachable state (`RShape`: what the
+instructions can build) is `decode` followed by the reference machine `run`; a panic is `none` on both sides -/
+theorem rust_execute_is_the_model (ph : Phase) (bs : List Nat) (r0 : RustExec.RSt) (hs : (RustExecTie.toSt r0).RShape = true) :
+    Gen.Rust.execute_instructions bs ph r0 =
+      (decode bs).bind fun is => (run ph (RustExecTie.toSt r0) is).map fun sj => ((), RustExecTie.mkR [] sj.1) :=
+  RustExecTie.exec_eq ph bs r0 hs
+
+/-- `verify` as written accepts exactly the byte strings the reference `verifyBytes` accepts -/
+theorem rust_verify_is_the_model (g c p : List Nat) (r0 : RustExec.RSt) :
+    Gen.Rust.execTranslated = true ∧ (Gen.Rust.verify g c p r0).isSome = (verifyBytes g c p).isSome :=
+  ⟨RustExecTie.translated, RustExecTie.verify_eq g c p r0⟩
 
 end C05
